@@ -17,7 +17,7 @@ One micro-step = one critical section of `nsqd/channel.go` on `inFlightMessages`
 A schedule is any list of micro-steps: between two steps of one operation any steps of other
 operations may run. The goroutine that is between two critical sections is a *pending
 continuation* (`Pend`). The heap is a multiset of ids (a stale entry — an object pushed after it
-left the map — is possible and harmless since `removeFromInFlightPQ` checks `pq[index] == msg`
+left the map — is possible; harmless for OWNERSHIP (not for lateness: `Nsq.Model.ChanMicroT`, audit A3, fix F48) since `removeFromInFlightPQ` checks `pq[index] == msg`
 (fix 80a0e5f) and the scan checks the map in the same critical section in which it pops the heap
 (fix F16; before it the two were separate sections and a REQ plus a redelivery in between made the
 scan time out the fresh delivery). Deadlines are abstracted: the scan may pop any heap member (an
